@@ -19,7 +19,7 @@ import (
 // C15 — passwords never appear in printed statements or sanitized query text.
 
 var c15pwAlpha = []string{"z", "q", " ", "'", `"`, `\`, "=", ";", "\t", "\n"}
-var c15users = []string{"u0", "my user", "a=b", "with password", "select", `x"y`, "for", "é", `RAW:abc"def"`, `RAW:for"='s'"`, "\u212a\u212a\u212a", "\u0130\u023a\u1e9e"}
+var c15users = []string{"u0", "my user", "a=b", "with password", "select", `x"y`, "for", "é", `RAW:abc"def"`, `RAW:for"='s'"`, "\u212a\u212a\u212a", "\u0130\u023a\u1e9e", "bishop", "pip", "P"}
 var c15must = []string{" ", "  ", "\t", "\n", "\r\n", " /*c*/ ", " --c\n", "/**/", " /*/ c */ ", "/* 'q' \"z\" */", "/*/", " /****/ ", "\f", "\u00a0", "\v", " -- c\r"}
 var c15may = []string{" ", "", "  ", "\n", " /*c*/ ", "--c\n", "/*/ c */", " /* ' */ ", "/*/", "\f", "\u00a0", " /* c ***/ "}
 
